@@ -337,6 +337,9 @@ func (e *twinEnv) mixedOps() []mixedOp {
 		{"VerifyInvariant(staking/module-accounts)", func(w *world.World) world.TxSpec {
 			return world.TxSpec{Msgs: []sdk.Msg{crisistypes.NewMsgVerifyInvariant(e.B.Addr, "staking", "module-accounts")}, Signers: s(e.B), Fee: aolFee, Gas: 3000000}
 		}},
+		// a brand-new denom while the x/nft module account already exists (whatever a process does "the first time" must not show)
+		one("CreateDenom(dz,B)", s(e.B), pnfttypes.NewMsgCreateDenomRequest("dz", "SZ", "late denom", "", "", "", e.B.Bech, "")),
+		one("Mint(dz,t,B)", s(e.B), pnfttypes.NewMsgMintPNFTRequest("dz", "t", "tok", "", "", "", e.B.Bech, "")),
 	}
 }
 
@@ -348,7 +351,7 @@ func (e *twinEnv) enumCount() int { return 18 }
 // on afterwards: leftovers of removed objects must not be treated differently by a node that restarted.
 func cleanupCases(e *twinEnv, shard, n int) []*histCase {
 	var out []*histCase
-	for i, blocks := range [][][]int{{{18}, {19}, {0, 2}}, {{18, 19}, {}, {8}}, {{4}, {18}, {19, 20}, {2}}, {{21}, {22, 21}}, {{23}, {2, 24}, {23}}} {
+	for i, blocks := range [][][]int{{{18}, {19}, {0, 2}}, {{18, 19}, {}, {8}}, {{4}, {18}, {19, 20}, {2}}, {{21}, {22, 21}}, {{23}, {2, 24}, {23}}, {{25}, {26, 0}}, {{2}, {25, 26}}} {
 		if (i+9)%n != shard {
 			continue
 		}
@@ -537,9 +540,53 @@ func abciCalls(h History) int {
 	return n
 }
 
+// preAnteGasTag marks a difference that consists ONLY of the GasUsed figure of transactions refused before the ante handler ran
+// (code != 0, GasWanted == 0): for those baseapp reports what the block context's own gas meter has consumed so far, i.e. the
+// begin blockers' work (see DESIGN section 9, F15).
+const preAnteGasTag = "gas-used-of-tx-refused-before-ante"
+
+// preAnteGasOnly: are a and b equal once GasUsed of transactions refused before the ante handler is left out? Returns the indices
+// of the blocks in which such figures differ.
+func preAnteGasOnly(a, b []BlockObs) (blocks []int, ok bool) {
+	if len(a) != len(b) {
+		return nil, false
+	}
+	for i := range a {
+		if len(a[i].Txs) != len(b[i].Txs) {
+			return nil, false
+		}
+		x, y := a[i], b[i]
+		x.Txs, y.Txs = append([]TxObs{}, a[i].Txs...), append([]TxObs{}, b[i].Txs...)
+		differs := false
+		for j := range x.Txs {
+			if x.Txs[j].Code != 0 && x.Txs[j].GasWanted == 0 && y.Txs[j].Code != 0 && y.Txs[j].GasWanted == 0 && x.Txs[j].GasUsed != y.Txs[j].GasUsed {
+				differs = true
+				x.Txs[j].GasUsed, y.Txs[j].GasUsed = 0, 0
+			}
+		}
+		xb, _ := json.Marshal(x)
+		yb, _ := json.Marshal(y)
+		if string(xb) != string(yb) {
+			return nil, false
+		}
+		if differs {
+			blocks = append(blocks, i)
+		}
+	}
+	return blocks, len(blocks) > 0
+}
+
 func diffObs(a, b []BlockObs) string {
 	if len(a) != len(b) {
 		return fmt.Sprintf("number of blocks %d vs %d", len(a), len(b))
+	}
+	if blocks, ok := preAnteGasOnly(a, b); ok {
+		i := blocks[0]
+		for j := range a[i].Txs {
+			if a[i].Txs[j] != b[i].Txs[j] {
+				return fmt.Sprintf("%s:blocks=%v : everything agrees except GasUsed of transactions that were refused before the ante handler ran; first: block %d tx %d: %+v vs %+v", preAnteGasTag, blocks, i, j, a[i].Txs[j], b[i].Txs[j])
+			}
+		}
 	}
 	for i := range a {
 		x, _ := json.Marshal(a[i])
